@@ -331,6 +331,8 @@ impl<Ix: SIx> Driver<Ix> {
         }
         let mut want_st = false;
         let ixmax = maxix::<Ix>();
+        // "via":"build" routes the call through the data::Build trait implementation instead of the inherent method
+        let via_build = op.get("via").and_then(|v| v.as_str()) == Some("build");
         let ret: Value = match name.as_str() {
             "reset" => {
                 let directed = op["directed"].as_bool().unwrap();
@@ -348,10 +350,19 @@ impl<Ix: SIx> Driver<Ix> {
                 rs("ok")
             }
             "try_add_node" => onm!(&mut self.obj, g => res_n(g.try_add_node(w))),
+            "add_node" if via_build => onm!(&mut self.obj, g => or_panic(guard(|| ri(Build::add_node(g, w).index())))),
             "add_node" => onm!(&mut self.obj, g => or_panic(guard(|| ri(g.add_node(w).index())))),
             "try_add_edge" => {
                 let (a, b) = (u(op, "a"), u(op, "b"));
                 onm!(&mut self.obj, g => or_panic(guard(|| res_e(g.try_add_edge(ni(a), ni(b), w)))))
+            }
+            "add_edge" if via_build => {
+                let (a, b) = (u(op, "a"), u(op, "b"));
+                onm!(&mut self.obj, g => or_panic(guard(|| match Build::add_edge(g, ni(a), ni(b), w) { Some(e) => ri(e.index()), None => rnone() })))
+            }
+            "update_edge" if via_build => {
+                let (a, b) = (u(op, "a"), u(op, "b"));
+                onm!(&mut self.obj, g => or_panic(guard(|| ri(Build::update_edge(g, ni(a), ni(b), w).index()))))
             }
             "add_edge" => {
                 let (a, b) = (u(op, "a"), u(op, "b"));
@@ -484,6 +495,20 @@ impl<Ix: SIx> Driver<Ix> {
                     (Obj::GU(g), false) => Obj::GU(g.into_edge_type()),
                     (o, _) => o, // not offered for StableGraph: the generator never asks
                 };
+                rs("ok")
+            }
+            "from_elements" => {
+                // data::FromElements on the container's own element stream: same type, compacted, rebuilt in index order
+                use petgraph::data::FromElements;
+                self.obj = match &self.obj {
+                    Obj::GD(g) => Obj::GD(Graph::from_elements(elems_of(g))),
+                    Obj::GU(g) => Obj::GU(Graph::from_elements(elems_of(g))),
+                    Obj::SD(g) => Obj::SD(StableGraph::from_elements(elems_of(g))),
+                    Obj::SU(g) => Obj::SU(StableGraph::from_elements(elems_of(g))),
+                    Obj::AGD(g) => Obj::AGD(g.clone()),
+                    Obj::ASD(g) => Obj::ASD(g.clone()),
+                };
+                want_st = true;
                 rs("ok")
             }
             "to_stable" => {
@@ -959,14 +984,14 @@ pub fn random_segment<Ix: SIx>(ixname: &str, cfg: &GenCfg, rng: &mut Rng, log: &
         let t_adde = t_addn + 260 + grow_bias;
         let op: Value = if r < t_addn as usize {
             if !room_n && ixmax > cfg.max_nodes { continue; }
-            json!({"op": if rng.chance(1,2) {"try_add_node"} else {"add_node"}})
+            if rng.chance(1, 6) { json!({"op":"add_node","via":"build"}) } else { json!({"op": if rng.chance(1,2) {"try_add_node"} else {"add_node"}}) }
         } else if r < t_adde as usize {
             if !room_e && ixmax > cfg.max_edges { continue; }
             let a = pick_node(rng);
             // favour parallel edges, reciprocal edges and self-loops
             let b = match rng.below(10) { 0 => a, _ => pick_node(rng) };
             let which = *rng.pick(&["try_add_edge", "add_edge", "add_edge", "try_update_edge", "update_edge"]);
-            json!({"op": which, "a": a, "b": b})
+            if rng.chance(1, 5) && !which.starts_with("try") { json!({"op": which, "a": a, "b": b, "via": "build"}) } else { json!({"op": which, "a": a, "b": b}) }
         } else if r < t_adde as usize + 90 {
             json!({"op":"remove_edge","e":pick_edge(rng, &d)})
         } else if r < t_adde as usize + 150 {
@@ -988,7 +1013,7 @@ pub fn random_segment<Ix: SIx>(ixname: &str, cfg: &GenCfg, rng: &mut Rng, log: &
         } else if r < t_adde as usize + 255 {
             json!({"op":"index_twice_nn","a":pick_node(rng),"b":pick_node(rng)})
         } else if r < t_adde as usize + 275 {
-            json!({"op":"noeffect","which":*rng.pick(&["clone","clone_from","reserve","shrink","capacity"]),"x":rng.below(9)})
+            if rng.chance(1, 4) { json!({"op":"from_elements"}) } else { json!({"op":"noeffect","which":*rng.pick(&["clone","clone_from","reserve","shrink","capacity"]),"x":rng.below(9)}) }
         } else if r < t_adde as usize + 290 {
             if d.is_stable() { continue; }
             json!({"op":"into_edge_type","d":rng.chance(1,2)})
@@ -1321,13 +1346,14 @@ pub fn cover_replay(scripts: &[Value], stride: usize, offset: usize, log: &mut L
             json!({"op":"filter_map","m":2,"r":1}), json!({"op":"retain","kind":"node","m":2,"r":0}), json!({"op":"retain","kind":"edge","m":2,"r":1}),
             json!({"op":"noeffect","which":"clone_from"}), json!({"op":"serde","fmt":"json","to":"same","mut":"none"}),
             json!({"op":"serde","fmt":"bincode","to": if stable {"graph"} else {"stable"},"mut":"none"}),
-            json!({"op": if stable {"to_graph"} else {"to_stable"}})];
+            json!({"op": if stable {"to_graph"} else {"to_stable"}}), json!({"op":"from_elements"}), json!({"op":"add_node","via":"build"})];
         if !stable { fan.push(json!({"op":"into_edge_type","d":true})); fan.push(json!({"op":"into_edge_type","d":false})); }
         for a in 0..=nb.min(3) {
             fan.push(json!({"op":"remove_node","a":a}));
             fan.push(json!({"op":"set_node_weight","a":a,"via":"node_weight_mut"}));
             for b in 0..=nb.min(3) {
                 for w in ["add_edge", "try_add_edge", "update_edge", "try_update_edge"] { fan.push(json!({"op":w,"a":a,"b":b})); }
+                for w in ["add_edge", "update_edge"] { fan.push(json!({"op":w,"a":a,"b":b,"via":"build"})); }
                 fan.push(json!({"op":"index_twice_nn","a":a,"b":b}));
             }
             for e in 0..=eb.min(3) { fan.push(json!({"op":"index_twice_ne","a":a,"e":e})); }
@@ -1417,7 +1443,7 @@ pub fn gen_u8_limit(seed: u64, stable: bool, directed: bool, log: &mut Log) {
             if !stable && d.degree(a) > 5 { continue; }
             json!({"op":"remove_node","a":a})
         } else if r < 7 {
-            json!({"op": if rng.chance(1,2) {"try_add_node"} else {"add_node"}})
+            if rng.chance(1, 6) { json!({"op":"add_node","via":"build"}) } else { json!({"op": if rng.chance(1,2) {"try_add_node"} else {"add_node"}}) }
         } else {
             let ln = d.live_nodes();
             if ln.is_empty() { continue; }
@@ -1429,4 +1455,22 @@ pub fn gen_u8_limit(seed: u64, stable: bool, directed: bool, log: &mut Log) {
         }
     }
     d.apply(&json!({"op":"obs"}), log, &mut rng);
+}
+
+/// the data::Element stream of a graph whose node indices are compact: nodes in index order, then edges in index order
+fn elems_of<G, N: Clone, E: Clone>(g: G) -> Vec<petgraph::data::Element<N, E>>
+where
+    G: petgraph::visit::IntoNodeReferences + petgraph::visit::IntoEdgeReferences + petgraph::visit::NodeIndexable + petgraph::visit::Data<NodeWeight = N, EdgeWeight = E>,
+{
+    use petgraph::visit::{EdgeRef, NodeRef};
+    let mut v = vec![];
+    let mut pos = std::collections::HashMap::new();
+    for (k, n) in g.node_references().enumerate() {
+        pos.insert(g.to_index(n.id()), k);
+        v.push(petgraph::data::Element::Node { weight: n.weight().clone() });
+    }
+    for e in g.edge_references() {
+        v.push(petgraph::data::Element::Edge { source: pos[&g.to_index(e.source())], target: pos[&g.to_index(e.target())], weight: e.weight().clone() });
+    }
+    v
 }
